@@ -1802,6 +1802,26 @@ func (s *BgpServer) handleFSMMessage(peer *peer, e *fsmMsg) {
 				peer.fsm.gConf.Config.RouterId, conf.Transport.State.RemoteAddress, conf.Transport.State.LocalAddress)
 			peer.peerInfo.Store(peerInfo)
 
+			if conf.GracefulRestart.State.PeerRestarting {
+				// RFC 4724 4.2: stale routes of a family that the new OPEN does not list with the
+				// forwarding bit (or when it has no GR capability) are removed immediately.
+				var keep []bgp.Family
+				peer.fsm.lock.Lock()
+				if caps := peer.fsm.capMap[bgp.BGP_CAP_GRACEFUL_RESTART]; len(caps) > 0 && conf.GracefulRestart.Config.Enabled {
+					for _, t := range caps[len(caps)-1].(*bgp.CapGracefulRestart).Tuples {
+						if t.Flags&0x80 != 0 {
+							keep = append(keep, bgp.NewFamily(t.AFI, t.SAFI))
+						}
+					}
+				}
+				peer.fsm.lock.Unlock()
+				keep, drop := classifyFamilies(peer.configuredRFlist(), keep)
+				s.propagateUpdate(peer, peer.adjRibIn.DropStale(drop))
+				if len(keep) == 0 {
+					peer.stopPeerRestarting()
+				}
+			}
+
 			neighborAddress := conf.State.NeighborAddress
 			deferralExpiredFunc := func(family bgp.Family, deferralTime time.Duration) func() {
 				//nolint: errcheck // ignore error
